@@ -54,7 +54,7 @@ def isolated(sites, samples, h):
     return True
 
 
-def derive(rng, ancestor, sites, alleles, ns, split_prob=0.3, rev_prob=0.5, k=5):
+def derive(rng, ancestor, sites, alleles, ns, split_prob=0.3, rev_prob=0.5, k=5, tight=False):
     """records of each sample: the derived genome, optionally split into two contigs, each forward or RC"""
     samples = []
     for s in range(ns):
@@ -63,7 +63,14 @@ def derive(rng, ancestor, sites, alleles, ns, split_prob=0.3, rev_prob=0.5, k=5)
             g[p] = alleles[i][s]
         g = "".join(g)
         pieces = [(0, len(g))]
-        if rng.random() < split_prob and len(g) > 4 * k:
+        h = (k - 1) // 2
+        if tight and sites and rng.random() < 0.5:
+            # a contig of length exactly k with a site at its centre (the site is still (k-1)/2 from both ends)
+            p = rng.choice(sites)
+            if p - h >= 0 and p + h + 1 <= len(g) and all(q == p or abs(q - p) > k + h for q in sites):
+                pieces = [(0, p - h), (p - h, p + h + 1), (p + h + 1, len(g))]
+                pieces = [x for x in pieces if x[1] > x[0]]
+        elif rng.random() < split_prob and len(g) > 4 * k:
             cut = rng.randint(2 * k, len(g) - 2 * k)
             pieces = [(0, cut), (cut, len(g))]
         recs = []
@@ -106,7 +113,7 @@ def snp_scenario(rng, k, ns, length, nsites, min_gap=None, tries=200, split_prob
             if len(set(col)) < 2:
                 col[rng.randrange(ns)] = alts[0]
             alleles.append(col)
-        samples = derive(rng, anc, sites, alleles, ns, split_prob=split_prob, k=k)
+        samples = derive(rng, anc, sites, alleles, ns, split_prob=split_prob, k=k, tight=True)
         whole = [[{"seq": anc, "off": 0, "rev": False}]]
         if not unique_per_position(whole, k):
             continue          # literal precondition: the ANCESTOR's split k-mers unique on both strands
